@@ -196,3 +196,98 @@ def writes_in(st, key_pred):
                     out.append(x)
     walk(st, v)
     return out
+
+
+def loops(fn):
+    """natural loops: list of (header block, set of body blocks) from back edges (target dominates source)"""
+    dom = dominators(fn)
+    out = {}
+    for b, blk in fn.blocks.items():
+        for s in blk['succs']:
+            if s is not None and s in dom[b]:
+                body = {s}
+                w = [b]
+                while w:
+                    c = w.pop()
+                    if c in body:
+                        continue
+                    body.add(c)
+                    w += fn.preds.get(c, [])
+                out.setdefault(s, set()).update(body)
+    return list(out.items())
+
+
+def reaching_defs(fn, key_of):
+    """Classic reaching definitions for l-values selected by key_of(lvalue expr) -> hashable key or None.
+    Returns a function rd(bid, idx, key) -> set of defining nodes (assign / decl-var dicts) or the string
+    'ENTRY' (no definition on some path) that may reach the point just before statement (bid, idx)."""
+    gen = {}
+
+    def defs_in(st):
+        out = []
+
+        def v(x, p):
+            k = x.get('k')
+            if k == 'assign':
+                kk = key_of(x['l'])
+                if kk is not None:
+                    out.append((kk, x))
+            elif k == 'un' and x['op'] in ('++', '--', '++post', '--post'):
+                kk = key_of(x['e'])
+                if kk is not None:
+                    out.append((kk, x))
+            elif k == 'decl':
+                for vv in x['vars']:
+                    kk = key_of({'k': 'var', 'name': vv['name'], 'did': vv.get('did'), 'decl': 'local'})
+                    if kk is not None:
+                        out.append((kk, vv))
+        walk(st, v)
+        return out
+    block_defs = {b: [(i, kk, d) for i, st in enumerate(blk['stmts']) for kk, d in defs_in(st)] for b, blk in fn.blocks.items()}
+    IN = {b: {} for b in fn.blocks}
+    IN[fn.entry] = {'*': None}
+
+    def flow(b, state):
+        st = {k: set(v) for k, v in state.items() if k != '*'}
+        for i, kk, d in block_defs[b]:
+            st[kk] = {id(d)}
+            nodes_by_id[id(d)] = d
+        return st
+    nodes_by_id = {}
+    OUT = {}
+    work = [fn.entry]
+    seen_once = set()
+    while work:
+        b = work.pop()
+        preds = [OUT[p] for p in fn.preds.get(b, []) if p in OUT]
+        state = {}
+        if b == fn.entry:
+            state = {}
+        else:
+            keys = set()
+            for p in preds:
+                keys |= set(p)
+            for k in keys:
+                s = set()
+                for p in preds:
+                    s |= p.get(k, {'ENTRY'})
+                state[k] = s
+        new = flow(b, state)
+        if b not in OUT or new != OUT[b] or b not in seen_once:
+            seen_once.add(b)
+            changed = b not in OUT or new != OUT[b]
+            OUT[b] = new
+            IN[b] = state
+            if changed:
+                work += [s for s in fn.blocks[b]['succs'] if s is not None]
+
+    def rd(b, idx, key):
+        cur = set(IN.get(b, {}).get(key, {'ENTRY'}))
+        for i, kk, d in block_defs[b]:
+            if i >= idx:
+                break
+            if kk == key:
+                cur = {id(d)}
+                nodes_by_id[id(d)] = d
+        return {('ENTRY' if c == 'ENTRY' else c) for c in cur}, nodes_by_id
+    return rd
